@@ -379,16 +379,16 @@ package netceptor
 // crypto/sha512 are outside the model); that they write nothing is proved
 //@ func ReceptorVerifyFunc$1$1
 //@   modifies nothing
-//@   ensures TRUSTED_DIGEST: result == digest(data, len(result)) && result != nil
+//@   ensures TRUSTED_DIGEST: result == digest(data, 28) && result != nil
 //@ func ReceptorVerifyFunc$1$2
 //@   modifies nothing
-//@   ensures TRUSTED_DIGEST: result == digest(data, len(result)) && result != nil
+//@   ensures TRUSTED_DIGEST: result == digest(data, 32) && result != nil
 //@ func ReceptorVerifyFunc$1$3
 //@   modifies nothing
-//@   ensures TRUSTED_DIGEST: result == digest(data, len(result)) && result != nil
+//@   ensures TRUSTED_DIGEST: result == digest(data, 48) && result != nil
 //@ func ReceptorVerifyFunc$1$4
 //@   modifies nothing
-//@   ensures TRUSTED_DIGEST: result == digest(data, len(result)) && result != nil
+//@   ensures TRUSTED_DIGEST: result == digest(data, 64) && result != nil
 
 //@ func ReceptorVerifyFunc$1
 //@   tags C09
